@@ -443,6 +443,13 @@ struct BindCase {
 }
 
 pub fn run(ctx: &mut Ctx) -> Vec<Violation> {
+    // every second worker process runs with logging switched on at Trace (log arguments are only evaluated then);
+    // records are formatted and dropped
+    if ctx.shard % 2 == 1 {
+        crate::srvlab::install_logger(log::LevelFilter::Trace);
+        *crate::srvlab::LOGGER.keep.lock().unwrap() = false;
+        ctx.class("logging-on-at-trace");
+    }
     let mut out = vec![];
     let t = ctx.tier;
     let salt = (ctx.seed as u32).wrapping_mul(2_654_435_761);
@@ -529,6 +536,8 @@ pub fn run(ctx: &mut Ctx) -> Vec<Violation> {
 }
 
 pub fn replay(ctx: &mut Ctx, sub: &str, case: &Value) -> Res {
+    crate::srvlab::install_logger(log::LevelFilter::Trace);
+    *crate::srvlab::LOGGER.keep.lock().unwrap() = false;
     match sub {
         "complete-exh" => replay_case::<SizeCase, _>(ctx, case, |ctx, c| completeness(ctx, c.ietf, &det_leaves(c.salt, c.n), "replay")),
         "reuse-pairs" => replay_case::<PairCase, _>(ctx, case, |ctx, c| reuse(ctx, c.ietf, &[det_leaves(c.salt, c.a), det_leaves(c.salt ^ 1, c.b)], "replay")),
